@@ -48,6 +48,11 @@ type Obs struct {
 	Write    string
 	Print    string
 	Pretty   string
+	// second read, after the tree has been built and printed: the read-only accessors must not
+	// have changed what Tokens() and Execute() see
+	ToksAfter []Tok
+	TAfter    []string
+	Reread    bool
 }
 
 type Inst interface {
